@@ -356,6 +356,124 @@ func genPools(p *pkgInfo, out string) {
 	}
 	b.WriteString("]\n\n/-- `Put` calls whose argument is not a variable obtained from the pool in the same function -/\n")
 	sort.Strings(foreign)
-	fmt.Fprintf(&b, "def poolForeignPuts : List String := %s\n\nend SJ.Generated\n", leanStrList(foreign))
+	fmt.Fprintf(&b, "def poolForeignPuts : List String := %s\n\n", leanStrList(foreign))
+	genSerializerEntry(p, &b)
+	b.WriteString("end SJ.Generated\n")
 	writeIfChanged(filepath.Join(out, "GoPools.lean"), b.String())
+}
+
+// genSerializerEntry: what `Serializer.Serialize` does to the receiver's fields before its tape loop (C15: a reused
+// Serializer).  `serializerEntry` is the statement text; `serializerEntryResets` classifies, per field of the struct,
+// how the entry code treats it: "zeroed" (every element set to 0), "emptied" (re-sliced to length 0), "assigned"
+// (overwritten as a whole), "resized" (re-sliced to a fixed length: old content stays and must be written before it is
+// read), "arg:<callee>" (handed to a function).  Fields not mentioned are not touched before the loop.
+func genSerializerEntry(p *pkgInfo, b *strings.Builder) {
+	fd, ok := p.funcs["Serializer.Serialize"]
+	if !ok {
+		die("pools: Serializer.Serialize not found")
+	}
+	recv := fd.Recv.List[0].Names[0].Name
+	var texts []string
+	treat := map[string][]string{}
+	add := func(f, how string) {
+		for _, h := range treat[f] {
+			if h == how {
+				return
+			}
+		}
+		treat[f] = append(treat[f], how)
+	}
+	fieldOf := func(e ast.Expr) (string, bool) {
+		if sl, ok := e.(*ast.SliceExpr); ok {
+			e = sl.X
+		}
+		if ix, ok := e.(*ast.IndexExpr); ok {
+			e = ix.X
+		}
+		if sel, ok := e.(*ast.SelectorExpr); ok {
+			if id, ok := sel.X.(*ast.Ident); ok && id.Name == recv {
+				return sel.Sel.Name, true
+			}
+		}
+		return "", false
+	}
+	done := false
+	for _, st := range fd.Body.List {
+		if f, ok := st.(*ast.ForStmt); ok && f.Cond != nil && strings.HasPrefix(nows(src(f.Cond)), "off<len(") {
+			done = true
+			break
+		}
+		texts = append(texts, stmtText(st))
+		ast.Inspect(st, func(n ast.Node) bool {
+			switch x := n.(type) {
+			case *ast.RangeStmt:
+				// for i := range s.f[:] { s.f[i] = 0 }
+				if f, ok := fieldOf(x.X); ok && len(x.Body.List) == 1 {
+					if as, ok := x.Body.List[0].(*ast.AssignStmt); ok && len(as.Lhs) == 1 && len(as.Rhs) == 1 {
+						if g, ok := fieldOf(as.Lhs[0]); ok && g == f && src(as.Rhs[0]) == "0" {
+							add(f, "zeroed")
+							return false
+						}
+					}
+				}
+			case *ast.AssignStmt:
+				for k, l := range x.Lhs {
+					sel, ok := l.(*ast.SelectorExpr)
+					if !ok {
+						continue
+					}
+					id, ok := sel.X.(*ast.Ident)
+					if !ok || id.Name != recv || k >= len(x.Rhs) {
+						continue
+					}
+					f := sel.Sel.Name
+					if sl, ok := x.Rhs[k].(*ast.SliceExpr); ok {
+						if g, ok := fieldOf(sl.X); ok && g == f && sl.Low == nil && sl.High != nil {
+							if src(sl.High) == "0" {
+								add(f, "emptied")
+							} else {
+								add(f, "resized")
+							}
+							continue
+						}
+					}
+					if c, ok := x.Rhs[k].(*ast.CallExpr); ok && src(c.Fun) == "make" {
+						add(f, "resized")
+						continue
+					}
+					add(f, "assigned")
+				}
+			case *ast.CallExpr:
+				name := nows(src(x.Fun))
+				for _, a := range x.Args {
+					if f, ok := fieldOf(a); ok {
+						if _, isSlice := a.(*ast.SliceExpr); !isSlice || true {
+							if name != "len" && name != "cap" && name != "make" {
+								add(f, "arg:"+name)
+							}
+						}
+					}
+				}
+			}
+			return true
+		})
+	}
+	if !done {
+		die("pools: Serializer.Serialize: tape loop `for off < len(...)` not found")
+	}
+	var fields []string
+	for f := range treat {
+		fields = append(fields, f)
+	}
+	sort.Strings(fields)
+	fmt.Fprintf(b, "/-- `Serializer.Serialize` up to its tape loop -/\ndef serializerEntry : List String := %s\n\n", leanStrList(texts))
+	b.WriteString("/-- how the entry code treats each field of the reused Serializer -/\ndef serializerEntryResets : List (String × List String) := [\n")
+	for i, f := range fields {
+		sep := ","
+		if i == len(fields)-1 {
+			sep = ""
+		}
+		fmt.Fprintf(b, "  (%q, %s)%s\n", f, leanStrList(treat[f]), sep)
+	}
+	b.WriteString("]\n\n")
 }
